@@ -21,6 +21,8 @@ from typing import Union
 
 import numpy as np
 
+from ..process.process import ProcessRepresentation
+
 
 class PayoffDates(Enum):
     """Payoff dates can be deterministic as it is the case for most of the financial products, but in the case
@@ -87,6 +89,10 @@ class Payoff:
 
         :Example: in the case of a lookback option, one needs to retrieve the max(min) of the underlying over [0,T]
         """
+        pass
+
+    def update(self, process_representation: ProcessRepresentation) -> None:
+        """Update the payoff given the representation of the paths passed to :func:`process` (identity or log)"""
         pass
 
     def dimension(self) -> int:
@@ -257,6 +263,7 @@ class Barrier(Payoff):
         super().__init__()
         self.vanilla = Vanilla(strike=strike, payoff_type=payoff_type)
         self.barrier = barrier
+        self._barrier_level = barrier  # barrier in the representation of the processed paths
         self.barrier_event = False  # it might be True depending on the spot price
         self.barrier_type = barrier_type
 
@@ -272,17 +279,23 @@ class Barrier(Payoff):
         else:
             self.process = self.__barrier_event_up
 
+    def update(self, process_representation: ProcessRepresentation) -> None:
+        if process_representation == ProcessRepresentation.LOG:
+            self._barrier_level = np.log(self.barrier)
+        else:
+            self._barrier_level = self.barrier
+
     def __barrier_event_down(self, _, path):
         self.barrier_event = False  # the event is a function of the current path only
         for value in path:
-            if value < self.barrier:
+            if value < self._barrier_level:
                 self.barrier_event = True
                 break
 
     def __barrier_event_up(self, _, path):
         self.barrier_event = False  # the event is a function of the current path only
         for value in path:
-            if value > self.barrier:
+            if value > self._barrier_level:
                 self.barrier_event = True
                 break
 
